@@ -59,6 +59,7 @@ def handle (toks : List String) : String :=
     | _, _ => "bad-arg"
   | "recv" :: fmt :: evs => match evs.mapM parseEv with
     | some es =>
+      let fmt := if fmt == "@default" then DEFAULT_FORMAT else fmt
       let L := lowOf fmt noVendor
       let outs := runOuts L Conn.init es
       let fin := runState L Conn.init es
